@@ -122,6 +122,13 @@ class ShardStats:
             self.labels[l] += 1
         for k in out.known:
             self.known[k] += 1
+            if os.environ.get('VERIF_WITNESS'):     # harvest witnesses of open findings
+                wdir = Path(os.environ['VERIF_WITNESS'])
+                wdir.mkdir(parents=True, exist_ok=True)
+                fn = wdir/f'{k}-{os.getpid()}.json'
+                if not fn.exists() or len(canon(case)) < len(canon(json.loads(
+                        fn.read_text())['case'])):
+                    fn.write_text(json.dumps(dict(finding=k, case=case), default=str))
         if out.inconclusive:
             self.inconclusive[out.inconclusive] += 1
         if out.nontrivial:
@@ -159,6 +166,7 @@ def _shard_main(mod_name, tier, seed, shard, nshards, rundir, deadline):
     import warnings
     warnings.filterwarnings('ignore')
     rundir = Path(rundir)
+    os.environ['VF_SALT'] = str(seed * 1000 + shard)
     stats = ShardStats()
     result_path = rundir/f'shard-{shard}.json'
     fail_path = rundir/f'shard-{shard}.fail.json'
@@ -223,6 +231,19 @@ def _shard_main(mod_name, tier, seed, shard, nshards, rundir, deadline):
                 out = _eval(mod, case, ctx, open_ids)
                 if not state['failed']:
                     stats.add(case, out)
+                if out.violation and os.environ.get('VERIF_COLLECT'):
+                    # calibration mode: bucket every discrepancy, never stop
+                    key = out.bucket
+                    stats.labels['COLLECT:' + str(key)] += 1
+                    cdir = Path(os.environ['VERIF_COLLECT'])
+                    cdir.mkdir(parents=True, exist_ok=True)
+                    fn = cdir/(''.join(c if c.isalnum() else '_' for c in str(key))[:80]
+                        + f'-{shard}.json')
+                    if not fn.exists() or len(canon(case)) < len(fn.read_text()) // 2:
+                        with open(fn, 'w') as fh:
+                            json.dump(dict(bucket=key, message=out.violation,
+                                detail=out.detail, case=case), fh, indent=1, default=str)
+                    return
                 if out.violation:
                     state['failed'] = True
                     record_failure(case, out, 'generated')
